@@ -11,7 +11,9 @@
    Part 5  EaRead / EaWrite hand the unmodified address to that memory, Panic when unattached
    Part 6  EaDump = the byte-wise loop (repaired code: any start; today's code: aligned starts only)
    Part 7  EaDump in terms of values: count, data[i], untouched positions, log
-   Part 8  the witness against today's loop (C13_dump_refuted) *)
+   Part 8  the witness against today's loop (C13_dump_refuted)
+   Part 9  EaRead24_wrap: loud failure, three single reads, address arithmetic, after any history
+   Part 10 a successful write to a RAM is what the next read returns and changes no other cell *)
 From Coq Require Import ZArith List Bool Lia ZifyBool.
 From Lib Require Import ZList.
 From Model Require Import Bus.
@@ -753,4 +755,64 @@ Theorem read24_after_history : forall W h a st,
 Proof.
   intros W h a st Hwf Ha. unfold ea_read24_wrap. cbv zeta.
   rewrite !route_history by (try assumption; apply r24_addr_range; assumption). reflexivity.
+Qed.
+
+(* ================================================================== Part 10 *)
+(* a write changes exactly one byte of exactly one RAM slice: "a write at an address goes to the memory most
+   recently attached over that address" seen through later reads *)
+Lemma get_set_assoc_same : forall l id d, get_assoc (set_assoc l id d) id = d.
+Proof.
+  induction l as [|[i d0] r IH]; intros id d; cbn [set_assoc get_assoc].
+  - rewrite Z.eqb_refl. reflexivity.
+  - destruct (id =? i) eqn:E; cbn [get_assoc]; rewrite E; [reflexivity|apply IH].
+Qed.
+Lemma get_set_assoc_other : forall l id id' d, id' <> id -> get_assoc (set_assoc l id d) id' = get_assoc l id'.
+Proof.
+  induction l as [|[i d0] r IH]; intros id id' d Hne; cbn [set_assoc get_assoc].
+  - destruct (id' =? id) eqn:E; [apply Z.eqb_eq in E; contradiction|reflexivity].
+  - destruct (id =? i) eqn:E; cbn [get_assoc].
+    + apply Z.eqb_eq in E. subst i. destruct (id' =? id) eqn:E'; [apply Z.eqb_eq in E'; contradiction|reflexivity].
+    + destruct (id' =? i); [reflexivity|apply IH; assumption].
+Qed.
+
+(* a successful EaWrite to a RAM, then EaRead of the same address: the byte written *)
+Theorem ea_write_then_read : forall W rt a v st st' m off,
+  seg_at rt a = Some m -> W m = KRam off ->
+  ea_write W rt a v st = Ok tt st' ->
+  exists st'', ea_read W rt a st' = Ok v st''.
+Proof.
+  intros W rt a v st st' m off Hs HW Hw. unfold ea_write, ea_read in *. rewrite Hs in *.
+  unfold mem_write in Hw. rewrite HW in Hw.
+  destruct (u32 (a - off) <? zlen (get_store st m)) eqn:Eix; [|discriminate Hw].
+  inversion Hw; subst st'; clear Hw.
+  unfold mem_read, peek. rewrite HW. unfold get_store, set_store, log_ev. cbn [stores log].
+  rewrite get_set_assoc_same.
+  assert (Hix : 0 <= u32 (a - off) < zlen (get_assoc (stores st) m)).
+  { unfold get_store in Eix. split; [unfold u32; apply Z.mod_pos_bound; lia|apply Z.ltb_lt; exact Eix]. }
+  rewrite zlen_upd by exact Hix.
+  destruct (u32 (a - off) <? zlen (get_assoc (stores st) m)) eqn:E2; [|apply Z.ltb_ge in E2; lia].
+  rewrite znth_upd_same by exact Hix. eexists. reflexivity.
+Qed.
+
+(* ... and what any memory would answer at any OTHER cell is what it answered before the write *)
+Theorem ea_write_frame : forall W rt a v st st' m off m' a',
+  seg_at rt a = Some m -> W m = KRam off ->
+  ea_write W rt a v st = Ok tt st' ->
+  (m' <> m \/ forall off', W m' = KRam off' \/ W m' = KRom off' -> u32 (a' - off') <> u32 (a - off)) ->
+  peek W m' a' st' = peek W m' a' st.
+Proof.
+  intros W rt a v st st' m off m' a' Hs HW Hw Hne. unfold ea_write in Hw. rewrite Hs in Hw.
+  unfold mem_write in Hw. rewrite HW in Hw.
+  destruct (u32 (a - off) <? zlen (get_store st m)) eqn:Eix; [|discriminate Hw].
+  inversion Hw; subst st'; clear Hw.
+  assert (Hix : 0 <= u32 (a - off) < zlen (get_assoc (stores st) m)).
+  { unfold get_store in Eix. split; [unfold u32; apply Z.mod_pos_bound; lia|apply Z.ltb_lt; exact Eix]. }
+  unfold peek. destruct (W m') as [|off'|off'] eqn:HW'; [reflexivity| |];
+    unfold get_store, set_store, log_ev; cbn [stores log];
+    (destruct (Z.eq_dec m' m) as [Heq|Hneq];
+     [subst m'; rewrite get_set_assoc_same; rewrite zlen_upd by exact Hix;
+      destruct (u32 (a' - off') <? zlen (get_assoc (stores st) m)) eqn:E3; [|reflexivity];
+      rewrite znth_upd_other; [reflexivity|exact Hix|];
+      destruct Hne as [Hc|Hc]; [contradiction|apply (Hc off'); auto]
+     |rewrite get_set_assoc_other by exact Hneq; reflexivity]).
 Qed.
